@@ -108,6 +108,7 @@ def shapeOnly (out : String) : String :=
 is not exactly representable but the shape law is decided exactly). -/
 def run (args : List String) : Option String :=
   match args with
+  | ["acc", name] => some (fmtBool (accessorKnown name))
   | op :: ny :: nx :: aff :: crs :: rest => do
     let g ← parseGB? ny nx aff crs
     if op.startsWith "S:" then (runOp (op.drop 2).toString g rest).map shapeOnly else runOp op g rest
